@@ -25,7 +25,7 @@ ASSUMPTIONS = [
     'hand argument: counter <= len/2 implies (counter == len => counter == 0), so the trigger false edge restores both check_rep clauses',
 ]
 
-FLOORS = {'R15.1': 5, 'R15.2': 1, 'R15.3': 2, 'R15.4': 2, 'R15.5': 2, 'R15.6': 3}
+FLOORS = {'R15.1': 5, 'R15.2': 1, 'R15.3': 2, 'R15.4': 2, 'R15.5': 2, 'R15.6': 3, 'R15.7': 11}
 
 CLEAN_CONTAINER_USES = ('PushTruncateContainer::push', 'PushTruncateContainer::slice_mut')
 DIRTY_CONTAINER_USES = ('PushTruncateContainer::pop', 'PushTruncateContainer::truncate')
@@ -356,4 +356,27 @@ def r15_6(cx):
                          fail_detail='SlidingDeque built with a counter that is neither 0 nor a derived copy: %s' % show(v))
 
 
-RULES = [('R15.1', r15_1), ('R15.2', r15_2), ('R15.3', r15_3), ('R15.4', r15_4), ('R15.5', r15_5), ('R15.6', r15_6)]
+def r15_7(cx):
+    """the containers the deque stands on: every PushTruncateContainer impl in the crate is a thin delegation (one call to the std / smallvec method of the same name, parameters forwarded, nothing else)"""
+    prog = cx.prog
+    want = {'push': 'push', 'pop': 'pop', 'truncate': 'truncate', 'slice': 'deref', 'slice_mut': 'deref_mut'}
+    n = 0
+    for f in sorted(prog.fns.values(), key=lambda f: f.name):
+        if f.crate != 'sliding_deque' or ' as sliding_deque::sliding_deque::PushTruncateContainer>::' not in f.name or f.kind == 'Closure':
+            continue
+        m = f.name.rsplit('::', 1)[-1]
+        if m not in want:
+            continue
+        n += 1
+        cx.count_sites()
+        calls = list(f.calls())
+        r = f.local_expr(0, []).strip()
+        ok = len(calls) == 1 and calls[0].callee.rsplit('::', 1)[-1] == want[m] and f.is_acyclic() and \
+            [a.strip().kind for a in calls[0].args()] == ['param'] * calls[0].nargs() and [a.strip().info['i'] for a in calls[0].args()] == list(range(1, f.argc + 1)) and \
+            (m in ('push', 'truncate') or (r.kind == 'call' and r.pos == calls[0].pos))
+        cx.check(ok, 'delegates:' + short(f.name), f, None, '%s forwards to %s(self%s)' % (m, short(calls[0].callee) if calls else '?', ', ..' if f.argc > 1 else ''),
+                 fail_detail='%s does more than forward to the container\'s own %s: %s' % (short(f.name), want[m], [short(c.callee) for c in calls]))
+    cx.check(n >= 10, 'impls-found', None, 'sliding_deque/src/sliding_deque.rs', '%d container methods checked' % n, fail_detail='only %d container methods found' % n)
+
+
+RULES = [('R15.1', r15_1), ('R15.2', r15_2), ('R15.3', r15_3), ('R15.4', r15_4), ('R15.5', r15_5), ('R15.6', r15_6), ('R15.7', r15_7)]
